@@ -294,6 +294,10 @@ func (hb HTTPClient) OpenIDConfiguration(ctx context.Context, issuerURL string) 
 
 func (hb HTTPClient) KeyProvider() jws.KeyProviderFunc {
 	return func(context context.Context, keySink jws.KeySink, signature *jws.Signature, message *jws.Message) error {
+		// The JWS JSON serialization allows multiple signatures, of which the JWX library only requires a single one to be valid.
+		if len(message.Signatures()) != 1 {
+			return fmt.Errorf("expected exactly 1 signature, found %d", len(message.Signatures()))
+		}
 		keyID := signature.ProtectedHeaders().KeyID()
 		publicKey, err := hb.keyResolver.ResolveKeyByID(keyID, nil, resolver.AssertionMethod)
 		if err != nil {
